@@ -66,6 +66,7 @@ func runC12(c *Ctx, idx int) {
 	mkDoc := func() (string, *Pager) {
 		prof := fullProfile()
 		prof.Skipped, prof.MediaInText, prof.RelURLs = true, true, true
+		prof.AttrNoise = r.Intn(2) == 0 // attributes that every output path must strip
 		prof.MaxBlocks = 8
 		g := NewArtGen(r, prof)
 		src := g.Doc()
